@@ -57,7 +57,7 @@ Proof. vm_compute. reflexivity. Qed.
 
 (* ------------------------------------------------------------------ footnotes *)
 From Coq Require Import Permutation Sorted.
-From V Require Import Model.Footnotes Spec.FootnoteSpec Proofs.FootnoteProofs Proofs.FootnoteOrder Proofs.FootnoteResolve.
+From V Require Import Model.Footnotes Spec.FootnoteSpec Proofs.FootnoteProofs Proofs.FootnoteOrder Proofs.FootnoteResolve Proofs.FootnoteOmit.
 From V Require Spec.Valid.
 
 (* sort_perm_indep: the tree returned by process does not depend on the order in which the HashMap's
@@ -162,6 +162,16 @@ Theorem C15_resolved_stay_references : forall (fold pres : bytes -> bytes) root 
   is_ref (nval (fst (refs fold pres (Node (FootnoteReference name r i) sp []) st))) = true.
 Proof. exact resolved_stay_references. Qed.
 Print Assumptions C15_resolved_stay_references.
+
+(* "unreferenced definitions are omitted", the half that is true of the model: every definition at the tail of the root
+   of the processed tree (every definition process_footnotes appends) has been referenced at least once — for every
+   tree whose root is no definition, every fold / preserve, every order of the HashMap's values.  (The other half, a
+   definition written inside a definition, is refuted below: finding F22.) *)
+Theorem C15_appended_definitions_are_referenced : forall (fold pres : bytes -> bytes) (perm : list fdef -> list fdef) root,
+  (forall m, Permutation (perm m) m) -> is_def root = false ->
+  forallb (fun d => (1 <=? fdef_total d)%N) (tail_part (nch (process fold pres perm root))) = true.
+Proof. intros fold pres perm root P D. exact (appended_defs_referenced fold pres perm P root D). Qed.
+Print Assumptions C15_appended_definitions_are_referenced.
 
 (* NOT proved (kept visible; evaluated on every real final tree and every model result by the check):
    every reference left in the tree carries the number and name of exactly one appended definition,
